@@ -725,10 +725,12 @@ func main() {
 	}
 	run.Finish(fw.Coverage{
 		Evaluations: steps, DistinctNontriv: nontriv, States: words, Transitions: steps, TracesValidated: steps,
-		Rule: "a state is a history (word) replayed on a fresh world; a transition is one executed step on one engine, compared against the model; a word is non-trivial when a failing step is followed by at least one more step; distinct = distinct words (each run on both engines)",
+		Rule: "a state is a history (word) replayed on a fresh world; a transition is one executed step on one engine, compared against the model; a word is non-trivial when a failing step is followed by at least one more step; distinct = distinct (word, context variant) pairs, each run on both engines; the ctx-* sections run on runtimes WithCloseOnContextDone(true)",
 		Samples: samples.List(), Exhaustive: true, Outcomes: outcomes.Map(),
 		Bounds: map[string]any{"full_alphabet": len(fullAlphabet), "core_alphabet": coreNames, "shapes": NShapes, "kinds": NKinds,
-			"class_sizes": map[string]int{"K": len(classes[clK]), "r0": len(classes[clR0]), "N": len(classes[clN]), "R": len(classes[clR])},
+			"class_sizes": map[string]int{"K": len(classes[clK]), "r0": len(classes[clR0]), "N": len(classes[clN]), "R": len(classes[clR]),
+				"Vn": len(classes[clVn]), "Vr": len(classes[clVr]), "Vp": len(classes[clVp])},
+			"context_variants": ctxModes,
 			"sections": secs, "max_recursion_letters_per_word": maxRecPerWord, "engines": engines},
 		Extra: map[string]any{"words_excluded_by_recursion_cap": sp.excludedByCap, "words_run": words,
 			"distinct_model_states": len(states), "batches": nBatches},
@@ -737,6 +739,7 @@ func main() {
 		"a call that itself traps on an already closed instance is modelled as returning the trap (what both engines do); the statement only fixes the exit error for calls that would otherwise succeed",
 		"host functions re-raise a nested failure with panic(err); a level that swallows it returns a class code to the guest",
 		"runtimes are created per batch of words (24 with recursion, 1024 otherwise; compilation is the dominant cost); instances A and B are fresh for every word",
+		"context variants: a step's context is cancelled after the step returned and after waiting (goroutine count back to its value at world creation, at most 50 ms) for stopped watchers to exit; the wait is never a verdict; kinds that close an instance are not part of the variant alphabet",
 		"words with a deephost letter run with GODEBUG=clobberfree=1 (use of a freed outgrown stack becomes a crash); all other words run without it",
 	})
 }
